@@ -33,7 +33,8 @@ def _tier(rng, name, wide=False):
 def _rand_op(rng, nslots):
     u = rng.random()
     if u < 0.4:
-        return {"op": "add", "tier": _tier(rng, rng.choice(NAMES), rng.random() < 0.3),
+        # names differ as strings differ: "a" and "A" are two names
+        return {"op": "add", "tier": _tier(rng, rng.choice(NAMES + ["A"]), rng.random() < 0.3),
                 "idx": rng.choice([None, None] + list(range(-2, nslots + 3))), "mode": rng.choice(MODES)}
     if u < 0.6:
         return {"op": "remove", "name": rng.choice(NAMES)}
@@ -80,6 +81,21 @@ def generate(tier, rng):
         g0 = rng.choice(starts)
         ops = [_rand_op(rng, 4) for _k in range(rng.randint(1, 6))]
         cases.append({"op": "tghist", "g": g0, "args": {"ops": ops}, "scale": ["dyadic", 1]})
+    # replaceTier with a tier that differs from the current one only in the last bit of some times (grid of binary64
+    # neighbours): it is another tier, and afterwards the name maps to it
+    for _ in range(80 if tier == "quick" else 3000):
+        t = _tier(rng, "a")
+        dbl = lambda x: 2 * x  # noqa
+        t = dict(t, min=0, max=40, entries=[[dbl(x) for x in e[:-1]] + [e[-1]] for e in t["entries"]])
+        bump = {x: (rng.choice([0, 1]) if x < 40 else 0) for e in t["entries"] for x in e[:-1]}
+        twin = dict(t, entries=[[x + bump[x] for x in e[:-1]] + [e[-1]] for e in t["entries"]])
+        other = dict(_tier(rng, "b"), min=0, max=40)
+        other["entries"] = [[2 * x for x in e[:-1]] + [e[-1]] for e in other["entries"]]
+        g0 = {"tiers": [t, other] if rng.random() < 0.5 else [other, t], "min": 0, "max": 40}
+        ops = [{"op": "replace", "name": "a", "tier": twin, "mode": rng.choice(MODES)}]
+        if rng.random() < 0.5:
+            ops.append({"op": "replace", "name": "a", "tier": t, "mode": "warning"})
+        cases.append({"op": "tghist", "g": g0, "args": {"ops": ops}, "scale": ["near", 1]})
     # tier-wise edits: reuse the textgrid-level generators of C06-C09
     for mod, ops in ((c06, ("tgcrop",)), (c07, ("tgerase",)), (c08, ("tgspace",)), (c09, ("tgedit",)), (c10, ("mergeTiers",))):
         sub = [c for c in mod.generate("quick", rng) if c["op"] in ops]
